@@ -116,11 +116,25 @@ def r3(ctx: Ctx) -> None:
     term_branch = [st for st in atoms_of(c, lambda x: x[0] == "if" and x[1] == ("c", ("g", "isinstance"), (t, ("g", "Term")), ()))]
     ctx.require(len(term_branch) == 1, "Expr.__add__: Term branch not found")
     tb = term_branch[0][2]
-    merges = [st for st in atoms_of(tb, lambda x: x[0] == "if" and contains(x[1], "s") and x[1][0] == "eq0")]
-    n_zero = sum(1 for m_ in merges for br in (m_[2], m_[3]) if zero in br)
-    ctx.site(f.where, "zero coefficients are deleted in both merge branches", branches_with_zero_elimination=n_zero)
-    if n_zero != 2:
-        ctx.report(f.where, f"zero-elimination {n_zero}/2", "a merge branch of Expr.__add__ can leave a term with coefficient 0", lineno=f.node.lineno)
+    # on every path through the Term branch that writes the stored coefficient, the coefficient is then tested against 0 and the
+    # term deleted when it is 0 (wherever that test stands: in each merge branch or once after them)
+    from framelint.peval import traces
+    is_zero = mk_eq(coef, k_num(0))
+    writes = unchecked = 0
+    # the final sign flip writes the coefficient too, but only when it is < 0: it is cut off before the paths are read
+    tb_merge = tuple(x for x in tb if not (x[0] == "if" and contains(x[1], mk_lt(coef, k_num(0)))))
+    for lits, effs, out in traces(tb_merge, keep_sets=True):
+        wrote = [i for i, e in enumerate(effs) if e[0] == "aug" and e[2] == coef]
+        if not wrote:
+            continue
+        writes += 1
+        deleted = any(e[0] == "del" and e[1] == (stored,) for e in effs[wrote[-1] + 1:])
+        if not ((is_zero in lits and deleted) or (mk_not(is_zero) in lits and not deleted)):
+            unchecked += 1
+    n_zero = writes - unchecked
+    ctx.site(f.where, "zero coefficients are deleted on every path that writes a stored coefficient", paths_with_write=writes, unchecked=unchecked)
+    if writes < 2 or unchecked:
+        ctx.report(f.where, f"zero-elimination {n_zero}/{writes}", "a merge branch of Expr.__add__ can leave a term with coefficient 0", lineno=f.node.lineno)
     # sign normalisation at the end of the Term branch
     norm_cond = mk_and([("cmp", "in", key, ("a", res, "t")), mk_lt(coef, k_num(0))])
     norm_body = {("aug", "Add", ("a", res, "c"), coef), ("set", coef, (-to_poly(coef)).to_s()), ("set", sign, mk_not(sign))}
